@@ -24,5 +24,6 @@ def queries(tier, prop='C03'):
         for (pre, al, cp) in (('p_', P_ALL, P_COPY), ('t_', T_ALL, T_COPY)):
             for e in al + ([] if fl == 1 else cp):
                 out.append(dict(entry='q_' + pre + e, cfg={'FLAV': fl}, unwind=24, unwindset=UW, budget=120, ub=ub, nofunc=ub))
-    for q_ in out: q_['lazy_trace'] = True
+    for q_ in out:
+        q_['lazy_trace'] = True   # verdict first, counterexample trace only when an obligation fails (engine/runner.py)
     return out
